@@ -82,6 +82,39 @@ func buildSqlite(dir string, k int) ([]byte, error) {
 	return os.ReadFile(path)
 }
 
+// sqliteRows is a database whose Packages table holds n one-byte rows.
+func sqliteRows(n int) []byte {
+	dir, err := os.MkdirTemp("", "c06-sqlite-")
+	if err != nil {
+		return nil
+	}
+	defer os.RemoveAll(dir)
+	db, err := sql.Open("sqlite", "file:"+filepath.Join(dir, "rows.sqlite"))
+	if err != nil {
+		return nil
+	}
+	defer db.Close()
+	for _, s := range []string{"PRAGMA page_size=512", "PRAGMA journal_mode=OFF", "CREATE TABLE Packages (hnum INTEGER PRIMARY KEY AUTOINCREMENT, blob BLOB NOT NULL)"} {
+		if _, err := db.Exec(s); err != nil {
+			return nil
+		}
+	}
+	tx, err := db.Begin()
+	if err != nil {
+		return nil
+	}
+	for i := 0; i < n; i++ {
+		if _, err := tx.Exec("INSERT INTO Packages (blob) VALUES (?)", []byte{byte(i)}); err != nil {
+			return nil
+		}
+	}
+	if tx.Commit() != nil || db.Close() != nil {
+		return nil
+	}
+	b, _ := os.ReadFile(filepath.Join(dir, "rows.sqlite"))
+	return b
+}
+
 // sqliteBase returns one of the well-formed databases, or nil when they could
 // not be written.
 func sqliteBase(r *hx.Rand) []byte {
